@@ -7,6 +7,17 @@ VARIANTS = {
     "rel": {"rustflags": CFG},
     # same + debug assertions: OxiDD's own debug_assert!s become extra oracles
     "dbg": {"rustflags": CFG + " -C debug-assertions=on"},
+    # Miri: UB, data races (incl. weak-memory emulation), deadlocks on tiny workloads; one Miri seed per shard
+    "miri": {"miri": True, "rustflags": CFG, "kind": "miri",
+             "miriflags": "-Zmiri-tree-borrows -Zmiri-permissive-provenance -Zmiri-disable-isolation -Zmiri-ignore-leaks"},
+    # ThreadSanitizer (needs an instrumented std)
+    "tsan": {"nightly": True, "rustflags": CFG + " -Zsanitizer=thread", "cargo_args": ["-Zbuild-std"],
+             "target": "x86_64-unknown-linux-gnu", "kind": "tsan",
+             "run_env": {"TSAN_OPTIONS": "halt_on_error=0 second_deadlock_stack=1"}},
+    # AddressSanitizer
+    "asan": {"nightly": True, "rustflags": CFG + " -Zsanitizer=address -Cforce-frame-pointers=yes",
+             "target": "x86_64-unknown-linux-gnu", "kind": "asan",
+             "run_env": {"ASAN_OPTIONS": "detect_leaks=0:halt_on_error=1:abort_on_error=0"}},
 }
 
 Q = ("quick",)
@@ -165,6 +176,29 @@ PLAN = {
         ],
         "require_counters": {"all": ["pairs", "triples"]},
     },
+    "C12": {
+        "level": "exploration",
+        "exhaustive": True,
+        "rule": "Natural stand-alone: all ordered pairs of 46 boundary values (0,1,2^k-1,2^k,2^k+1 for k in {1,31,32,33,63,64,65,127,128,"
+                "129,191,192,193,255,256}) built by 4 construction routes x add, shl/shr (lost-bit detection), cmp/eq/hash, clone, "
+                "clone_from in all inline/heap combinations, Display/Binary/Octal/Hex with flags, mantissa/exp, TryFrom u64/u128, f64 "
+                "conversion (round to nearest even), plus random operands up to 512 bits, against a schoolbook Vec<u32> bignum written "
+                "in the monitor. sat_count: bdd/bcdd/zbdd x 6 orders x 256 functions x 24 values of vars (3,4,73,1100 and the integer/"
+                "f64 boundaries) x 9 number types (Natural, Saturating<u64/u128>, F64, plain u32/u64/u128/i64/i128), fresh and shared "
+                "caches, cache_all on/off; random functions with 4..12 (thorough 16) variables. Cache histories: ONE SatCountCache "
+                "across builds, drop+gc+rebuild of different functions (recycled node ids), set_var_order, changes of vars. Natural "
+                "also under Miri. distinct = distinct (kind, type, vars, table, order) / (operation, operand pair) cases.",
+        "assumptions": ["ZBDD sat_count only for vars == num_vars (other values are not defined tightly enough to assert)"],
+        "jobs": [
+            {"monitor": "c12_natural", "variant": "rel", "shards": 16},
+            {"monitor": "c12_natural", "variant": "dbg", "shards": 16},
+            {"monitor": "c12_natural", "variant": "miri", "shards": {"quick": 2, "thorough": 16}, "param": None, "timeout": {"quick": 1500, "thorough": 3000}, "tiers": ("thorough",)},
+            {"monitor": "c12_satcount", "variant": "rel", "shards": 16},
+            {"monitor": "c12_cache", "variant": "rel", "shards": 16},
+            {"monitor": "c12_cache", "variant": "dbg", "shards": 8},
+        ],
+        "require_counters": {"all": ["cache_reuse_after_gc", "cache_reuse_after_reorder", "saturated_results", "natural_shr_lossy_cases"]},
+    },
     "C13": {
         "level": "exploration",
         "exhaustive": True,
@@ -204,6 +238,35 @@ PLAN = {
         ],
         "require_counters": {"all": ["roundtrips", "truncations", "files_mutated", "import_errors"]},
     },
+    "C07": {
+        "level": "exploration",
+        "rule": "three layers with one oracle (every result == truth-table model; at quiescence handles of all threads pairwise "
+                "canonical, structural + reference-count audit, exact gc, empty store after teardown; no deadlock/abort). (1) Miri "
+                "(tree borrows, data-race detector with weak-memory emulation, deadlock detection): tiny 2-thread scenarios on a "
+                "2-worker manager, one Miri seed (= one deterministic interleaving) per shard. (2) cooperative token-passing scheduler "
+                "on the oxidd_verif yield points (node allocation, slot return, level-lock acquisition incl. blocked waits, gc phases, "
+                "edge clone/drop, Function::drop, cache get/add): seeded random schedules with switch probability 1/2..1/64 for 2..4 "
+                "threads x 3..8 operations (apply, ite, not, quantify, apply-quantify, clone, drop, gc), and depth-first enumeration of "
+                "ALL schedules with <= 1 (quick) / <= 2 (thorough) preemptions for 2 threads x 1..2 operations; a state where every "
+                "unfinished thread waits for a lock is reported as deadlock by the scheduler. (3) free-running 2..4 application threads "
+                "on managers with 1..8 workers and maximal split depth, 4..13 variables, random delays injected at the yield points; "
+                "natively, with debug assertions, under ThreadSanitizer and AddressSanitizer. distinct = distinct interleaving "
+                "signatures (hash of the (thread, site) sequence) + distinct checked results.",
+        "assumptions": ["'for all interleavings' is sampled; exhaustive only for tiny scripts at hook granularity with bounded preemptions",
+                        "deadlock freedom = bounded progress within the explored schedules", "scheduler runs use 1-worker managers so that only registered threads execute OxiDD code"],
+        "jobs": [
+            {"monitor": "c07_sched_rand", "variant": "rel", "shards": 16},
+            {"monitor": "c07_sched_rand", "variant": "dbg", "shards": 8},
+            {"monitor": "c07_sched_dfs", "variant": "rel", "shards": 12},
+            {"monitor": "c07_stress", "variant": "rel", "shards": 16, "parallel": 4, "nondeterministic": True},
+            {"monitor": "c07_stress", "variant": "dbg", "shards": 8, "parallel": 4, "nondeterministic": True},
+            {"monitor": "c07_stress", "variant": "tsan", "shards": 8, "parallel": 4, "nondeterministic": True},
+            {"monitor": "c07_stress", "variant": "asan", "shards": 8, "parallel": 4, "nondeterministic": True, "tiers": ("thorough",)},
+            {"monitor": "c07_tiny", "variant": "tsan", "shards": 16, "nondeterministic": True},
+            {"monitor": "c07_tiny", "variant": "miri", "shards": {"quick": 16, "thorough": 96}, "timeout": {"quick": 1500, "thorough": 3000}},
+        ],
+        "require_counters": {"all": ["schedules", "context_switches", "scenarios_enumerated_completely", "stress_rounds", "tiny_scenarios", "gcs_that_freed"]},
+    },
     "C08": {
         "level": "exploration",
         "exhaustive": True,
@@ -239,6 +302,23 @@ PLAN = {
 HOOK_COMMITS = []
 
 MANIFEST_TEXT = {
+    "C12": {
+        "text": "Held on every executed case: exact agreement of Natural with an independent schoolbook big integer on all boundary "
+                "pairs and random operands; sat_count for every number type equal to popcount(table)*2^(vars-n) (exact / saturated "
+                "/ within float precision) for all 3-variable functions, orders and kinds, with fresh and reused caches across gc, "
+                "reordering and changing variable counts.",
+        "design_ref": "DESIGN.md section 5 / C12",
+        "note": "Trusted: schoolbook bignum and popcount model in harness/src/mon/c12.rs.",
+        "technique": "runtime monitoring: independent big-integer oracle + truth-table model counts over exhaustive boundary sets and seeded histories (Natural also under Miri)",
+    },
+    "C07": {
+        "text": "Held on every explored schedule: Miri seeds, seeded and exhaustively enumerated (bounded-preemption) schedules of a "
+                "cooperative scheduler on hook points, and free-running stress under TSan/ASan/debug assertions, all judged by the "
+                "model, canonicity, audit and exact-gc oracles at quiescence.",
+        "design_ref": "DESIGN.md section 5 / C07",
+        "note": "Trusted: hooks sit between critical sections (MANIFEST.hooks); a break that removes a lock also removes the yield point in front of it, hence the hook-independent Miri/TSan layers.",
+        "technique": "runtime monitoring: Miri + ThreadSanitizer/ASan + seeded/enumerated cooperative scheduling on yield-point hooks, with model/audit oracles",
+    },
     "C15": {
         "text": "Every generated export was re-imported (same and fresh managers) and compared with the model and an independent "
                 "header model; every truncation point and thousands of seeded mutations of valid files were fed to the importer, which "
